@@ -401,7 +401,7 @@ where
             .expect("subslice should succeed");
         Ok(self
             .store()
-            .utf8byte_to_charpos(self.absolute_cursor(beginbyte + bytecursor))?
+            .utf8byte_to_charpos(beginbyte + bytecursor)?
             - self.begin())
     }
 
@@ -599,7 +599,7 @@ where
             .expect("subslice should succeed");
         Ok(self
             .store()
-            .utf8byte_to_charpos(self.absolute_cursor(beginbyte + bytecursor))?
+            .utf8byte_to_charpos(beginbyte + bytecursor)?
             - self.begin())
     }
 
